@@ -156,24 +156,23 @@ Section TailVals.
 End TailVals.
 
 (* ------------------------------------------------------------------ *)
-(* supported attributes, per set of applied repairs *)
+(* supported attributes *)
 
-Definition is_str_tag (t : Z) : bool :=
-  (t =? V_KEYWORD) || (t =? V_CHARSET) || (t =? V_URI) || (t =? V_LANG)
-  || (t =? V_MIME) || (t =? V_TEXT) || (t =? V_NAME).
 Definition is_int_tag (t : Z) : bool := (t =? V_INT) || (t =? V_ENUM).
+(* every value tag that attribGroup.decode keeps as strings: the seven it names and
+   every other non-delimiter byte *)
+Definition is_str_tag (t : Z) : bool :=
+  (5 <? t) && (t <? 256) && negb (is_int_tag t) && negb (t =? V_BOOL) && negb (t =? V_RANGE).
 Definition nonempty {A} (l : list A) : bool := match l with [] => false | _ => true end.
 
-(* every supported value tag; names 1..2^15-1 bytes; at least one value; strings below
-   2^15 bytes; integers in int32.  What the code as it is cannot take is switched on
-   by the corresponding repair. *)
-Definition attr_ok (fx : fixes) (a : attr) : bool :=
+(* every value tag; names 1..2^15-1 bytes; at least one value (any number of them);
+   strings below 2^15 bytes; integers in int32 *)
+Definition attr_ok (a : attr) : bool :=
   match a with
   | AStr t n vs => is_str_tag t && name_ok n && nonempty vs && forallb str_ok vs
   | AInt t n vs => is_int_tag t && name_ok n && nonempty vs && forallb int_ok vs
-                   && (fx_int fx || (length vs <=? 2)%nat)
-  | ABool t n vs => (t =? V_BOOL) && name_ok n && nonempty vs && fx_bool fx
-  | ARange t n lo hi => (t =? V_RANGE) && name_ok n && int_ok lo && int_ok hi && fx_range fx
+  | ABool t n vs => (t =? V_BOOL) && name_ok n && nonempty vs
+  | ARange t n lo hi => (t =? V_RANGE) && name_ok n && int_ok lo && int_ok hi
   end.
 
 Definition body_vals {V} (ev : V -> bytes) (t : Z) (n : bytes) (vs : list V) : bytes :=
@@ -191,21 +190,23 @@ Definition enc_attr_body (a : attr) : bytes :=
   | ARange t n lo hi => enc_name n true ++ be_enc 2 8 ++ be_enc 4 lo ++ be_enc 4 hi
   end.
 
-Lemma enc_attr_split fx a :
-  attr_ok fx a = true -> enc_attr a = enc_tag (attr_tag a) ++ enc_attr_body a.
+Lemma enc_attr_split a :
+  attr_ok a = true -> enc_attr a = enc_tag (attr_tag a) ++ enc_attr_body a.
 Proof.
   destruct a as [t n vs|t n vs|t n vs|t n lo hi]; cbn [attr_ok enc_attr attr_tag enc_attr_body];
     try (destruct vs as [|v vs]; [cbn [nonempty]; rewrite ?andb_false_r; cbn; discriminate|reflexivity]).
   reflexivity.
 Qed.
 
-Lemma str_tag_kind fx t : is_str_tag t = true -> kind_of fx t = KStr /\ 5 < t.
+Lemma str_tag_kind t : is_str_tag t = true -> kind_of t = KStr /\ 5 < t.
 Proof.
-  unfold is_str_tag. intros H.
-  repeat (apply orb_true_iff in H as [H|H]); apply Z.eqb_eq in H; subst t; split; reflexivity.
+  unfold is_str_tag, is_int_tag, kind_of. intros H.
+  repeat (apply andb_true_iff in H as [H ?]).
+  repeat match goal with Hx : negb _ = true |- _ => apply negb_true_iff in Hx; rewrite Hx end.
+  split; [reflexivity|lia].
 Qed.
 
-Lemma int_tag_kind fx t : is_int_tag t = true -> kind_of fx t = KInt /\ 5 < t.
+Lemma int_tag_kind t : is_int_tag t = true -> kind_of t = KInt /\ 5 < t.
 Proof.
   unfold is_int_tag. intros H.
   repeat (apply orb_true_iff in H as [H|H]); apply Z.eqb_eq in H; subst t; split; reflexivity.
@@ -214,85 +215,62 @@ Qed.
 Lemma enc_name_true n : enc_name n true = enc_data [] n false.
 Proof. reflexivity. Qed.
 
-Lemma attr_ok_tag fx a : attr_ok fx a = true -> 5 < attr_tag a.
+Lemma attr_ok_tag a : attr_ok a = true -> 5 < attr_tag a.
 Proof.
   destruct a as [t n vs|t n vs|t n vs|t n lo hi]; cbn [attr_ok attr_tag]; intros H;
     repeat (apply andb_true_iff in H as [H ?]).
-  - apply (int_tag_kind fx), H.
-  - apply (str_tag_kind fx), H.
+  - apply int_tag_kind, H.
+  - apply str_tag_kind, H.
   - apply Z.eqb_eq in H; subst; reflexivity.
   - apply Z.eqb_eq in H; subst; reflexivity.
 Qed.
 
-Lemma dec_value_enc fx n a pre rest e :
-  attr_ok fx a = true -> follow_ok (attr_tag a) rest -> (attr_nvals a < n)%nat ->
-  dec_value fx n (at_pos pre (enc_attr_body a ++ rest) e) (attr_tag a)
+(* valInt / valStr / valBool.decode on what their encode wrote *)
+Lemma dec_multi_enc {V} (rd : dec -> dec * V) (ev : V -> bytes) (okv : V -> bool)
+      (mk : bytes -> list V -> attr)
+      (Hrd : forall v pre rest e, okv v = true ->
+         rd (at_pos pre (ev v ++ rest) e) = (at_pos (pre ++ ev v) rest e, v))
+      n t nm vs pre rest e :
+  5 < t -> name_ok nm = true -> nonempty vs = true -> forallb okv vs = true ->
+  follow_ok t rest -> (length vs < n)%nat ->
+  dec_multi rd mk n (at_pos pre (body_vals ev t nm vs ++ rest) e) t
+  = Some (at_pos (pre ++ body_vals ev t nm vs) rest e, mk nm vs).
+Proof.
+  intros Ht Hnm Hne Hok Hfol Hn.
+  destruct vs as [|v1 vs]; [discriminate|].
+  cbn [forallb] in Hok. apply andb_true_iff in Hok as [Hv1 Hvs].
+  unfold name_ok in Hnm. cbn [body_vals]. rewrite enc_name_true, <- !app_assoc.
+  unfold dec_multi. rewrite d_getdata_at by lia. rewrite Hrd by exact Hv1.
+  rewrite (tail_vals_enc rd ev okv Hrd t nm rest e ltac:(lia) Hfol vs _ [v1] n Hvs
+             ltac:(cbn [length] in Hn; lia)).
+  cbn [app]. rewrite <- !app_assoc. reflexivity.
+Qed.
+
+Lemma dec_value_enc n a pre rest e :
+  attr_ok a = true -> follow_ok (attr_tag a) rest -> (attr_nvals a < n)%nat ->
+  dec_value n (at_pos pre (enc_attr_body a ++ rest) e) (attr_tag a)
   = ROk (at_pos (pre ++ enc_attr_body a) rest e, a).
 Proof.
   intros Hok Hfol Hn.
-  pose proof (attr_ok_tag fx a Hok) as Htag.
+  pose proof (attr_ok_tag a Hok) as Htag.
   destruct a as [t nm vs|t nm vs|t nm vs|t nm lo hi];
-    cbn [attr_ok attr_tag enc_attr_body attr_nvals] in *.
-  - (* integer *)
+    cbn [attr_ok attr_tag enc_attr_body attr_nvals] in *;
     repeat (apply andb_true_iff in Hok as [Hok ?]).
-    destruct (int_tag_kind fx t Hok) as [Hk _]. unfold dec_value. rewrite Hk.
-    destruct vs as [|v1 vs]; [discriminate|].
-    match goal with H : forallb int_ok _ = true |- _ => cbn [forallb] in H; apply andb_true_iff in H as [Hv1 Hvs] end.
-    unfold name_ok in *. cbn [body_vals]. rewrite enc_name_true, <- !app_assoc.
-    destruct (fx_int fx) eqn:Hfx.
-    + unfold dec_int_fixed. rewrite d_getdata_at by lia. rewrite rd_int_at by exact Hv1.
-      rewrite (tail_vals_enc rd_int enc_int_val int_ok (fun v pre rest e H => rd_int_at pre rest e v H) t nm rest e ltac:(lia) Hfol vs _ [v1] n Hvs
-                 ltac:(cbn [length] in Hn; lia)).
-      cbn [lift app]. rewrite <- !app_assoc. reflexivity.
-    + unfold dec_int_coded. rewrite d_getdata_at by lia. rewrite rd_int_at by exact Hv1.
-      destruct vs as [|v2 vs].
-      * cbn [enc_vals app].
-        destruct Hfol as (b & rest' & Hrest & Hfol). subst rest.
-        rewrite d_byte_at.
-        destruct (Z.of_N b =? t) eqn:Eb.
-        -- destruct Hfol as [Hne|(k & r & Hr & Hk0)]; [lia|]. subst rest'.
-           rewrite d_int16_at by lia.
-           assert (Hk1 : (k =? 0) = false) by lia. rewrite Hk1.
-           rewrite <- (app_assoc _ [b] (be_enc 2 k)).
-           replace (-3) with (- zlen ([b] ++ be_enc 2 k))
-             by (rewrite zlen_app, be_enc2_length; reflexivity).
-           rewrite d_seek_back. rewrite <- !app_assoc. reflexivity.
-        -- rewrite d_seek_back1. rewrite <- !app_assoc. reflexivity.
-      * destruct vs as [|v3 vs]; [|cbn [length] in *; lia].
-        cbn [forallb] in Hvs. apply andb_true_iff in Hvs as [Hv2 _].
-        cbn [enc_vals]. unfold enc_name at 1. cbn [negb]. rewrite enc_data_true, <- !app_assoc.
-        rewrite d_tag_at by lia. rewrite Z.eqb_refl.
-        rewrite d_int16_at by (change (2 ^ 15) with 32768; lia). cbn [Z.eqb].
-        cbn [app]. rewrite rd_int_at by exact Hv2.
-        rewrite <- !app_assoc. reflexivity.
-  - (* string *)
-    repeat (apply andb_true_iff in Hok as [Hok ?]).
-    destruct (str_tag_kind fx t Hok) as [Hk _]. unfold dec_value. rewrite Hk.
-    destruct vs as [|v1 vs]; [discriminate|].
-    match goal with H : forallb str_ok _ = true |- _ => cbn [forallb] in H; apply andb_true_iff in H as [Hv1 Hvs] end.
-    unfold name_ok in *. cbn [body_vals]. rewrite enc_name_true, <- !app_assoc.
-    unfold dec_str. rewrite d_getdata_at by lia. rewrite rd_str_at by exact Hv1.
-    rewrite (tail_vals_enc rd_str enc_str_val str_ok (fun v pre rest e H => rd_str_at pre rest e v H) t nm rest e ltac:(lia) Hfol vs _ [v1] n Hvs
-               ltac:(cbn [length] in Hn; lia)).
-    cbn [lift app]. rewrite <- !app_assoc. reflexivity.
-  - (* boolean: only after the repair *)
-    repeat (apply andb_true_iff in Hok as [Hok ?]).
-    apply Z.eqb_eq in Hok. subst t.
-    unfold dec_value. change (kind_of fx V_BOOL) with KBool.
-    match goal with H : fx_bool fx = true |- _ => rewrite H end.
-    destruct vs as [|v1 vs]; [discriminate|].
-    unfold name_ok in *. cbn [body_vals]. rewrite enc_name_true, <- !app_assoc.
-    unfold dec_bool_fixed. rewrite d_getdata_at by lia. rewrite rd_bool_at.
-    rewrite (tail_vals_enc rd_bool enc_bool_val (fun _ => true)
-               (fun v pre rest e _ => rd_bool_at pre rest e v) V_BOOL nm rest e ltac:(lia) Hfol vs _ [v1] n
-               ltac:(clear; induction vs; cbn; auto) ltac:(cbn [length] in Hn; lia)).
-    cbn [lift app]. rewrite <- !app_assoc. reflexivity.
-  - (* rangeOfInteger: only after the repair *)
-    repeat (apply andb_true_iff in Hok as [Hok ?]).
-    apply Z.eqb_eq in Hok. subst t.
-    unfold dec_value, kind_of.
-    match goal with H : fx_range fx = true |- _ => rewrite H end.
-    cbn -[dec_range at_pos enc_name be_enc].
+  - destruct (int_tag_kind t Hok) as [Hk _]. unfold dec_value. rewrite Hk. unfold dec_int.
+    rewrite (dec_multi_enc rd_int enc_int_val int_ok (AInt t)
+               (fun v pre rest e H => rd_int_at pre rest e v H)) by assumption.
+    reflexivity.
+  - destruct (str_tag_kind t Hok) as [Hk _]. unfold dec_value. rewrite Hk. unfold dec_str.
+    rewrite (dec_multi_enc rd_str enc_str_val str_ok (AStr t)
+               (fun v pre rest e H => rd_str_at pre rest e v H)) by assumption.
+    reflexivity.
+  - apply Z.eqb_eq in Hok. subst t. unfold dec_value. change (kind_of V_BOOL) with KBool.
+    unfold dec_bool.
+    rewrite (dec_multi_enc rd_bool enc_bool_val (fun _ => true) (ABool V_BOOL)
+               (fun v pre rest e _ => rd_bool_at pre rest e v))
+      by (try assumption; clear; induction vs; cbn; auto).
+    reflexivity.
+  - apply Z.eqb_eq in Hok. subst t. unfold dec_value. change (kind_of V_RANGE) with KRange.
     unfold name_ok, int_ok in *. rewrite enc_name_true, <- !app_assoc.
     unfold dec_range. rewrite d_getdata_at by lia.
     rewrite d_int16_at by (change (2 ^ 15) with 32768; lia).
